@@ -23,7 +23,9 @@ TRUSTED = ["CBMC 6.11.0 C++ front end (goto-cc on a .cpp harness): macro expansi
            "x86-64 LP64, plain char signed; -DNDEBUG as shipped (the assert()s in rCOptionCb_ are compiled out)"]
 ASSUMPTIONS = [
     "route R3: rBOIL_BEGIN is regenerated from the header text by two substitutions (lambda introducer '[]' dropped -> named "
-    "function; 'auto prop =' -> 'rtosc::Port::MetaContainer prop ='); the std::function wrapper around the callback is dropped",
+    "function; 'auto prop =' -> 'rtosc::Port::MetaContainer prop ='); the std::function wrapper around the callback is dropped; "
+    "port-sugar.h is read through a per-run copy that is byte-identical unless the may-fire rule decl-in-cond rewrites "
+    "`if(T x = e) S` to `T x = e; if(x) S` (logged in notes; 0 firings on the pinned tree)",
     "collaborator contract (proved under C01): rtosc_argument_string(msg) returns the tag string, rtosc_argument(msg,0) the "
     "first argument, of the dispatched message; the callback may call them only on that message, argument 0 must exist",
     "collaborator contract (proved under C17): prop[\"min\"] / prop[\"max\"] return the declared value text or NULL when the key "
@@ -65,8 +67,51 @@ AUTO_FROM = r"\bauto prop ="
 AUTO_TO = "rtosc::Port::MetaContainer prop ="
 
 
+DECL_TYPE = r"(?:const\s+)?(?:unsigned\s+|signed\s+)?(?:char|int|long|short|float|double|bool|auto|size_t|[A-Za-z_][\w:]*_t)\s*(?:const\s*)?[*&]?\s*(?:const\s+)?"
+
+
+def normalise_decl_in_condition(src, log):
+    """CBMC 6.11's C++ front end crashes on a declaration used as a condition (`if(T x = e) S`).  May-fire rule
+    `decl-in-cond`: such a statement is rewritten to `T x = e; if(x) S` - the same evaluation order and the same
+    branch; only the scope of x widens to the enclosing block (a clash of names is then a compile error = undecided,
+    never a verdict).  It fires only where the `if` starts a statement of a block (previous token is ';', '{' or '}', or the `#define NAME(args)` head of the macro),
+    so an `if` that is itself the unbraced body of another statement is left alone.  Fires 0 times on the pinned tree,
+    where the generated file is byte-identical to the header."""
+    out, pos, fired = [], 0, 0
+    for m in re.finditer(r"\bif\s*\(", src):
+        if m.start() < pos:
+            continue
+        depth, k = 1, m.end()
+        while k < len(src) and depth:
+            depth += {"(": 1, ")": -1}.get(src[k], 0)
+            k += 1
+        if depth:
+            continue
+        cond = src[m.end():k - 1]
+        d = re.match(r"^\s*(%s)([A-Za-z_]\w*)\s*=(?!=)(.*)$" % DECL_TYPE, cond, re.S)
+        if not d or "\n" in cond.replace("\\\n", ""):
+            continue
+        before = re.sub(r"(\\\n|\s)+$", "", src[:m.start()])
+        first_of_macro = re.match(r"#\s*define\s+\w+(\([^()]*\))?$", before.rsplit("\n", 1)[-1].strip())
+        if not before or (before[-1] not in ";{}" and not first_of_macro):
+            continue
+        out.append(src[pos:m.start()])
+        out.append("%s%s =%s; if(%s)" % (d.group(1), d.group(2), d.group(3), d.group(2)))
+        pos = k
+        fired += 1
+    out.append(src[pos:])
+    log.append("extract rule %-12s in %-28s fired %d (may-fire; 0 = byte-identical copy)" % ("decl-in-cond", HEADER, fired))
+    res = "".join(out)
+    if fired == 0 and res != src:
+        raise extract.ExtractError("decl-in-cond: copy differs although the rule did not fire")
+    return res
+
+
 def prepare(ctx):
     src = extract.read(ctx.repo, HEADER)
+    nlog = []
+    os.makedirs(os.path.join(ctx.ext, "c14"), exist_ok=True)
+    extract.write(ctx, "c14/port-sugar.h", normalise_decl_in_condition(src, nlog))
     # the prologue macro: from '#define rBOIL_BEGIN' to the first line that does not end in a backslash
     m = re.search(r"^#define rBOIL_BEGIN[^\n]*\\\n(?:[^\n]*\\\n)*[^\n]*\n", src, re.M)
     if not m:
@@ -89,7 +134,7 @@ def prepare(ctx):
            " * The header's own rBOIL_BEGIN with the lambda introducer dropped and 'auto prop' given its type. */\n"
            "#undef rBOIL_BEGIN\n%s") % (os.path.join(ctx.repo, HEADER), text)
     extract.write(ctx, "c14_boil.h", out)
-    ctx.notes += log
+    ctx.notes += nlog + log
 
 
 def _obl(kind, op, suffix="", defines=None, **kw):
